@@ -487,3 +487,6 @@ impl<'a, T: AsAnyCache<'a>> AsAnyCache<'a> for &'_ T {
         T::as_any_cache(self)
     }
 }
+
+#[cfg(kani)]
+include!(concat!(env!("ASSETS_MANAGER_VERIF"), "/incrate/anycache.rs"));
